@@ -12,6 +12,7 @@ import (
 
 	"github.com/pinealctx/neptune/stcp"
 	"github.com/pinealctx/neptune/ulog"
+	"go.uber.org/zap"
 )
 
 // The real system of one scenario: one stcp.SessionMgr, optionally one stcp.Server running its accept loop, and
@@ -128,6 +129,13 @@ func (h *handler) find(s *stcp.Session) *realSess {
 }
 
 type c16PanicValue struct{ code int }
+
+// c16Info is a session value that contributes log fields (stcp.IKeyZap)
+type c16Info struct{ id int }
+
+func (c c16Info) KeyZaps(ext ...zap.Field) []zap.Field {
+	return append([]zap.Field{zap.Int("c16.session", c.id)}, ext...)
+}
 
 // Read consumes one byte.  'E' is a handler error; 'P' 'N' 'R' 'C' panic with a string, with nil, with an error
 // value, with a value of a user type; 'G' calls runtime.Goexit; anything else is counted.
@@ -439,6 +447,19 @@ func (w *world) issue(l *label, natural bool) error {
 		if l.h != 0 {
 			s.UpdateHandler(w.handler(l.h)) // installed before Start
 		}
+		// the accessors a user of the package has (none of them may disturb the session): a value for the log fields,
+		// an explicit remote address (the same name the wrapper reports)
+		switch l.i % 3 {
+		case 0:
+			s.Set(c16Info{id: l.i})
+		case 1:
+			s.Set(l.i)
+		}
+		if l.i%2 == 0 {
+			s.SetRemoteAddr(string(r.fc.name))
+		}
+		_ = s.Get()
+		_ = s.Logger()
 		setRetired(fmt.Sprintf("%p", s), false)
 		r.sess.Store(s)
 		r.started.Store(true)
